@@ -496,7 +496,7 @@ def main():
             else:
                 undecided.append(f"{oid}: {detail}")
             continue
-        if co.get("kind") == "fn_must_not_contain":
+        if co.get("kind") in ("fn_must_not_contain", "fn_must_contain"):
             # a function body must not contain a given token sequence (e.g. `spawn (`): mechanical, for facts the extraction
             # rules would hide (R6 runs a spawned task at its spawn point, so a contract cannot tell a detached write from one in place)
             from lex import lex as _lex, locate as _locate
@@ -510,7 +510,10 @@ def main():
                     want = co["tokens"]
                     body = [t.text for t in toks[loc[1]:loc[2]]]
                     hit = any(body[k:k + len(want)] == want for k in range(len(body)))
-                    if hit:
+                    if co["kind"] == "fn_must_contain":
+                        if not hit:
+                            st, detail = ("undecided" if co.get("on_miss") == "undecided" else "violation"), f"{co['fn']} does not contain `{' '.join(want)}`: {co['why'][:200]}"
+                    elif hit:
                         st, detail = "violation", f"{co['fn']} contains `{' '.join(want)}`"
             except Exception as e:   # noqa
                 st, detail = "undecided", str(e)
